@@ -64,6 +64,8 @@ def random_case(rng, tier):
     media = [rng.choice(persist.MEDIA) for _ in range(3)]
     case = {'program': program, 'crashes': crashes, 'media': media, 'loader': rng.choice(['default', 'default', 'custom'])}
     if rng.random() < 0.2:
+        case['detached'] = True  # checkpoints are loaded into a loop that is named in the load context but is not the current one
+    if rng.random() < 0.2:
         # "between the return and the next step" in the narrowest sense: the checkpoint is written while the state of the
         # step that has just returned is being left (EXITING_STATE).  The restored process may execute that step once more -
         # its command had not taken effect - and then the command means what it says
@@ -132,7 +134,7 @@ def run(case):
     runner = persist.RestartRun(case['program'], case.get('crashes'), case.get('media'), case.get('loader', 'default'),
                                 pause_in_step=case.get('pause_in_step'), crash_on_paused=case.get('crash_on_paused'),
                                 crash_on_played=case.get('crash_on_played'), lag=case.get('lag'),
-                                crash_on_exit=case.get('crash_on_exit'))
+                                crash_on_exit=case.get('crash_on_exit'), detached=case.get('detached'))
     try:
         proc = runner.run()
         if runner.runaway is not None:
